@@ -7,7 +7,7 @@
 From E57 Require Import Base.Prelude Model.BsRead Model.Record Model.Prog Model.QueueReader
   Spec.BitSpec Spec.FormatSpec.
 From E57 Require Import Proofs.BitLemmas Proofs.BitWidthProofs Proofs.BitReadProofs
-  Proofs.BitCodecProofs Proofs.QueueReaderLemmas.
+  Proofs.BitCodecProofs Proofs.QueueReaderLemmas Proofs.QueueReaderPacket.
 From Coq Require Import ZifyN ZifyNat ZifyBool.
 Ltac Zify.zify_post_hook ::= Z.div_mod_to_equations.
 Open Scope N_scope.
@@ -76,6 +76,10 @@ Proof.
     cbn [zval]; f_equal; lia.
 Qed.
 
+(** The model's test for zero width against the specification's. *)
+Lemma bit_size_zero t : type_ok t = true -> (bit_size t =? 0) = negb (sized t).
+Proof. intros Ht. rewrite (bit_size_spec t Ht). unfold sized. lia. Qed.
+
 (** * The invariant of one record
 
     [sh] says whether the unread bits are fewer than one value (true between
@@ -104,16 +108,18 @@ Qed.
 
 Lemma rec_append sh k t col c f s q :
   rec_inv sh k t col (c ++ f) s q -> bytes_ok c ->
-  exists s1, bsr_append s c = Ok s1 /\ rec_inv false k t col f s1 q.
+  exists s1, keep_append t s c = Ok s1 /\ rec_inv false k t col f s1 q.
 Proof.
-  intros (Ht & Hcol & R & Hh & Hi) Hc.
-  destruct (bsr_append_holds s R c Hh Hc) as (s1 & Ha & Hh1).
-  exists s1. split; [exact Ha|]. split; [exact Ht|]. split; [exact Hcol|].
-  exists (R ++ bits_of_bytes c). split; [exact Hh1|].
-  destruct (sized t); [|exact Hi].
-  destruct Hi as (_ & extra & He & Heq).
-  split; [discriminate|]. exists extra. split; [exact He|].
-  rewrite bits_of_bytes_app, app_assoc in Heq. exact Heq.
+  intros (Ht & Hcol & R & Hh & Hi) Hc. unfold keep_append. rewrite (bit_size_zero t Ht).
+  destruct (sized t) eqn:Hs; cbn [negb].
+  - destruct (bsr_append_holds s R c Hh Hc) as (s1 & Ha & Hh1).
+    exists s1. split; [exact Ha|]. split; [exact Ht|]. split; [exact Hcol|].
+    exists (R ++ bits_of_bytes c). split; [exact Hh1|]. rewrite Hs.
+    destruct Hi as (_ & extra & He & Heq).
+    split; [discriminate|]. exists extra. split; [exact He|].
+    rewrite bits_of_bytes_app, app_assoc in Heq. exact Heq.
+  - exists s. split; [reflexivity|]. split; [exact Ht|]. split; [exact Hcol|].
+    exists R. split; [exact Hh|]. rewrite Hs. exact I.
 Qed.
 
 Lemma col_i64 t col : type_ok t = true -> Forall (fun v => in_range t v = true) col ->
@@ -198,9 +204,6 @@ Proof.
 Qed.
 
 (** * The model's test for zero width against the specification's *)
-
-Lemma bit_size_zero t : type_ok t = true -> (bit_size t =? 0) = negb (sized t).
-Proof. intros Ht. rewrite (bit_size_spec t Ht). unfold sized. lia. Qed.
 
 Lemma has_sized_sized : forall ts, Forall (fun t => type_ok t = true) ts ->
   has_sized ts = existsb sized ts.
@@ -310,7 +313,7 @@ Qed.
 Lemma inv5_append sh k : forall ts cs fs ss qs, inv5 sh k ts cs fs ss qs ->
   forall chunks fs', Forall3 (fun f c f' => f = c ++ f') fs chunks fs' ->
   Forall bytes_ok chunks ->
-  exists ss1, Forall3 (fun s c s1 => bsr_append s c = Ok s1) ss chunks ss1 /\
+  exists ss1, Forall4 (fun t s c s1 => keep_append t s c = Ok s1) ts ss chunks ss1 /\
               inv5 false k ts cs fs' ss1 qs.
 Proof.
   induction 1 as [|t c f s q ts cs fs ss qs Hr Hi IH]; intros chunks fs' HF Hok.
